@@ -206,10 +206,12 @@ class FilReader(Filterbank):
             msg = "Data length of the file(s) is not a whole number of samples"
             raise ValueError(msg)
         self._file.seek(start * self.samp_stride)
-        nreads, lastread = divmod(nsamps, (gulp - skipback))
-        if lastread < skipback:
-            nreads -= 1
-            lastread = nsamps - (nreads * (gulp - skipback))
+        # Full blocks must lie within the requested range; what is left after them
+        # begins with the skipback samples that repeat the previous block.
+        nreads = (nsamps - gulp) // (gulp - skipback) + 1
+        lastread = nsamps - (nreads * (gulp - skipback))
+        if lastread == skipback:
+            lastread = 0
         blocks = [
             (ii, gulp * self.header.nchans, -skipback * self.header.nchans)
             for ii in range(nreads)
